@@ -60,6 +60,8 @@ class KademliaRPC:
             raise ValueError("invalid blob hash")
         if not isinstance(port, int) or not 1024 <= port <= 65535:  # the bounds KademliaPeer enforces for a searcher
             raise ValueError("invalid tcp port")
+        if not isinstance(token, bytes) or len(token) != constants.HASH_BITS // 8:  # what make_store can send
+            raise ValueError("Invalid token")
         if not self.verify_token(token, rpc_contact.compact_ip()):
             if self.loop.time() - self.protocol.started_listening_time < constants.TOKEN_SECRET_REFRESH_INTERVAL:
                 pass
@@ -74,8 +76,8 @@ class KademliaRPC:
         return b'OK'
 
     def find_node(self, rpc_contact: 'KademliaPeer', key: bytes) -> typing.List[typing.Tuple[bytes, str, int]]:
-        if len(key) != constants.HASH_LENGTH:
-            raise ValueError("invalid contact node_id length: %i" % len(key))
+        if not isinstance(key, bytes) or len(key) != constants.HASH_LENGTH:
+            raise ValueError("invalid contact node_id: not %i bytes" % constants.HASH_LENGTH)
 
         contacts = self.protocol.routing_table.find_close_peers(key, sender_node_id=rpc_contact.node_id)
         contact_triples = []
@@ -86,8 +88,8 @@ class KademliaRPC:
     def find_value(self, rpc_contact: 'KademliaPeer', key: bytes, page: int = 0):
         page = page if page > 0 else 0
 
-        if len(key) != constants.HASH_LENGTH:
-            raise ValueError("invalid blob_exchange hash length: %i" % len(key))
+        if not isinstance(key, bytes) or len(key) != constants.HASH_LENGTH:
+            raise ValueError("invalid blob_exchange hash: not %i bytes" % constants.HASH_LENGTH)
 
         response = {
             b'token': self.make_token(rpc_contact.compact_ip()),
